@@ -360,7 +360,35 @@ theorem reject_non_numeric (v : Bytes) (hv : (stoi v).toOption = none) (code : I
   | error e => rfl
   | ok n => rw [hs] at hv; exact absurd hv (by simp [Except.toOption])
 
-/-- what counts as a number: optional blanks, optional sign, digits, nothing after -/
+/-- **white space in front of a number is refused** (`std::stoi` would skip it: `-p " 1"` used to be taken as `-p 1`) -/
+theorem stoi_leading_space (c : UInt8) (rest : Bytes) (h : isSpaceC c = true) : stoi (c :: rest) = .error .cmdlineError :=
+  stoi_space_head c rest h
+
+/-- **what counts as a number**: an optional sign, then digits — at least one —, nothing before (in particular no white space) and
+    nothing after, the value within the 32-bit range; everything else is refused (`reject_non_numeric`).
+    (Before the change "`stoi` refuses leading white space" the accepted strings were `blanks* sign? digits+`.) -/
+theorem stoi_accepts_only_numbers (v : Bytes) (n : Int) (h : stoi v = .ok n) :
+    ∃ sign ds, v = sign ++ ds ∧ (sign = [] ∨ sign = [43] ∨ sign = [45]) ∧ ds ≠ [] ∧ (∀ c ∈ ds, 48 ≤ c ∧ c ≤ 57) ∧
+      -2147483648 ≤ n ∧ n ≤ 2147483647 :=
+  stoi_ok_shape v n h
+
+/-- an argument to -F / -p that is not `sign? digits+` is rejected — stated on the bytes of the argument, not on `stoi` -/
+theorem reject_not_a_number (v : Bytes)
+    (hv : ¬ ∃ sign ds, v = sign ++ ds ∧ (sign = [] ∨ sign = [43] ∨ sign = [45]) ∧ ds ≠ [] ∧ ∀ c ∈ ds, 48 ≤ c ∧ c ≤ 57)
+    (code : Int) (hc : code = 70 ∨ code = 112) (st : HandlerState) : (processOption st (code, v)).toOption = none := by
+  refine reject_non_numeric v ?_ code hc st
+  cases hs : stoi v with
+  | error e => rfl
+  | ok n =>
+    obtain ⟨sign, ds, h1, h2, h3, h4, -⟩ := stoi_ok_shape v n hs
+    exact absurd ⟨sign, ds, h1, h2, h3, h4⟩ hv
+
+/-- in particular: an argument with white space in front -/
+theorem reject_leading_space (c : UInt8) (rest : Bytes) (h : isSpaceC c = true) (code : Int) (hc : code = 70 ∨ code = 112)
+    (st : HandlerState) : (processOption st (code, c :: rest)).toOption = none :=
+  reject_non_numeric (c :: rest) (by rw [stoi_leading_space c rest h]; rfl) code hc st
+
+/-- digits alone are a number -/
 theorem stoi_digits (ds : Bytes) (hne : ds ≠ []) (hd : ∀ c ∈ ds, 48 ≤ c ∧ c ≤ 57) (hsmall : ds.length ≤ 9) :
     ∃ n : Int, stoi ds = .ok n ∧ 0 ≤ n := by
   match ds, hne with
@@ -390,3 +418,9 @@ theorem third_operand_rejected (t : List Opt) (a b c : Bytes)
   rfl
 
 end PatchModel.C19
+
+#print axioms PatchModel.C19.stoi_leading_space
+#print axioms PatchModel.C19.stoi_accepts_only_numbers
+#print axioms PatchModel.C19.reject_not_a_number
+#print axioms PatchModel.C19.reject_leading_space
+
